@@ -180,6 +180,23 @@ func genC14(g *Gen) {
 		e.setDec("prev", randAny(g.r))
 		g.emit(e)
 	})
+	// exponents just outside the range that the coefficient compensates exactly: m * 10^f with the exponent f digits below
+	// the smallest (folding the f trailing zeros gives exponent -6176), and one zero too few / one to spare; likewise at the top
+	// (coefficient of d digits, exponent up to 35 - d above the largest); every byte length the coefficient can have
+	g.gridRun(40*4*3, 0.1, func(i int) {
+		f := 1 + i%40
+		m := []*big.Int{big.NewInt(1), big.NewInt(3), big.NewInt(25), big.NewInt(int64(1 + g.r.Intn(999999)))}[(i/40)%4]
+		df := (i/160)%3 - 1 // one zero too few, exact, one to spare
+		c := new(big.Int).Mul(m, pow10(f))
+		e := Ev{"op": "Compose", "form": 0, "neg": g.r.Intn(2) == 0, "sig": ints(c.Bytes()), "exp": eMin - f - df}
+		e.setDec("prev", randAny(g.r))
+		g.emit(e)
+		// the top: a short coefficient far above the largest exponent
+		nd := len(m.String())
+		e2 := Ev{"op": "Compose", "form": 0, "neg": g.r.Intn(2) == 0, "sig": ints(append(make([]byte, g.r.Intn(3)*16), m.Bytes()...)), "exp": eMax + (f % 36) + df*(35-nd-f%36)}
+		e2.setDec("prev", randAny(g.r))
+		g.emit(e2)
+	})
 	for !g.w.full() {
 		switch g.r.Intn(3) {
 		case 0:
